@@ -40,9 +40,19 @@ def run_family(chk, invariants, properties, s2i_fields, trace_fields, trace_inv,
     oacc = vm.validate_traces(chk, oexecs, oprogs, trace_fields + ("s" if "s" not in trace_fields else ""), trace_inv, trace_props, name="tvo")
     chk.add("traces_validated_against_impl", oacc)
     chk.add("overflow_program_traces", len(oexecs))
+    # 5. I->S with exhaustive coverage: the real VM is walked through its complete reachable state graph on the small programs
+    #    (every call of the alphabet from every reachable state); the specification must explain every transition
+    wexecs, wstats = vm.record_walks(chk, th, sources, 1000 if not chk.thorough else 20000)
+    wprogs_idx = sorted({e[0]["p"] for e in wexecs})
+    wacc = vm.validate_traces(chk, wexecs, progs, trace_fields, trace_inv, trace_props, name="walk", batches=max(1, len(wexecs)), timeout=2400)
+    chk.add("traces_validated_against_impl", wacc)
+    chk.cov["exhaustive_walks"] = [{"program": sources[w["walk"] - 1][0], "real_states": w["states"], "calls_per_state": w["alphabet"],
+                                    "transitions_validated": w["steps"]} for w in wstats if w["complete"]]
+    log("%s: exhaustive walks %d/%d accepted (%d transitions)" % (chk.pid, wacc, len(wexecs), sum(w["steps"] for w in wstats if w["complete"])))
     chk.cov["rule"] = ("complete TLC state graph of TheoVM over all debugger histories of the compiled corpus programs; "
                        "all API histories of length %d replayed into the real VM; %d seeded random histories of %d calls "
-                       "recorded from the real VM and validated by TheoVMTrace" % (k, len(execs), calls))
+                       "recorded from the real VM and validated by TheoVMTrace; exhaustive walks of the real VM's whole reachable state graph (every call "
+                       "from every state) on the programs with <= %d states, every transition validated" % (k, len(execs), calls, 1000 if not chk.thorough else 20000))
     chk.cov["programs_in_graph"] = len(progs)
     chk.cov["exhaustive"] = True
     chk.assumptions += ["programs are the real compiler's output for /verif/corpus/vm/*.theo",
